@@ -99,6 +99,33 @@ pub fn run(ctx: &Ctx) {
         let ok = match (ent(&p1), ent(&p2)) { (Some(e1), Some(e2)) if e1.len() == e && e2.len() == e => consecutive(&handed, &e1, &e2) || consecutive(&all, &e1, &e2), _ => false };
         if !ok { ctx.violation(format!("{P}:random:len={len},consecutive:repeated-or-derived"), "two consecutive generations do not carry their own, consecutive bytes of the entropy source", json!({"sweep": "consecutive-generations", "index": i, "length": len})) }
     });
+    // a generation AFTER something else happened on the thread: a phrase refused part-way (unknown word after some list words),
+    // refused at the end (checksum), refused at once (count), or accepted - the generator shares the word list, the checksum
+    // hash and possibly buffers with the parser, and what a refused parse leaves behind must not reach the next phrase
+    let w = bip39::words(); let valid12: Vec<&str> = bip39::entropy_to_phrase(&filler_bytes(ctx.seed, 0xC12B, 16)).split(' ').map(|t| w[w.iter().position(|x| *x == t).unwrap()]).collect();
+    let with = |k: usize, t: &'static str| { let mut v = valid12.clone(); v[k] = t; v.join(" ") };
+    let before: Vec<(&str, String)> = vec![("nothing", String::new()), ("valid-phrase", valid12.join(" ")), ("unknown-2nd-word", with(1, "zzzz")), ("unknown-7th-word", with(6, "zzzz")), ("unknown-last-word", with(11, "zzzz")), ("unknown-first-word", with(0, "zzzz")),
+        ("checksum", { let mut v = valid12.clone(); v[11] = if v[11] == "abandon" { "ability" } else { "abandon" }; v.join(" ") }), ("11-words", valid12[..11].join(" ")), ("13-words", format!("{} abandon", valid12.join(" "))), ("two-refusals", format!("{}\u{0}{}", with(3, "zzzz"), with(9, "qqqq")))];
+    ctx.sweep("generation-after-a-parse", "on one fresh thread: {nothing, a valid phrase, an unknown word at position 1 / 2 / 7 / 12, a checksum failure, 11 words, 13 words, two refusals} parsed first, then two generations of each supported length: both phrases have the requested length, parse back, and carry their own bytes of the source", (before.len() * 5) as u64, |i| {
+        let (bn, text) = &before[i as usize / 5]; let len = [12usize, 15, 18, 21, 24][i as usize % 5]; let stream = filler_bytes(ctx.seed, 0xC12C + i, 4096); let t2 = text.clone();
+        let replay = json!({"sweep": "generation-after-a-parse", "index": i, "entry": "Mnemonic::from_phrase then Mnemonic::random x 2 on a fresh thread", "parsed_first": text, "length": len});
+        ctx.sample("generation-after-a-parse", || replay.clone());
+        let (got, _, handed) = with_script(stream, None, false, move || { if !t2.is_empty() { for part in t2.split('\u{0}') { let _ = guard(|| Mnemonic::from_phrase(part).map(|m| m.to_phrase()).ok()); } }
+            (0..2).map(|_| guard(|| Mnemonic::random(Language::English, len).map(|m| (m.to_phrase(), Mnemonic::from_phrase(m.to_phrase()).is_ok())).ok())).collect::<Vec<_>>() });
+        let mut from = 0usize;
+        for (k, r) in got.iter().enumerate() {
+            match r {
+                Err(p) => { ctx.eval(format!("after:{bn}:panic")); ctx.panic_violation(format!("{P}:random:after-{bn}:panic@{}", panic_site(p)), format!("generation {} panics: {p}", k + 1), replay); return; }
+                Ok(None) => { ctx.eval(format!("after:{bn}:error")); ctx.violation(format!("{P}:random:after-{bn}:error"), format!("generation {} fails although the entropy source answered every request", k + 1), replay); return; }
+                Ok(Some((phrase, parses))) => { let toks: Vec<&str> = phrase.split(' ').collect();
+                    let ent = match bip39::tokens_to_entropy(&toks) { Ok(e) if toks.len() == len && *parses => e, _ => { ctx.eval(format!("after:{bn}:bad-phrase")); ctx.violation(format!("{P}:random:after-{bn}:wrong-length-or-invalid"), format!("generation {} after parsing [{bn}], asked for {len} words, produced '{phrase}', which is not a valid BIP-39 phrase of that length (or is refused by the parser)", k + 1), replay); return; } };
+                    match if handed.len() < ent.len() + from { None } else { (from..handed.len() - ent.len() + 1).find(|p| handed[*p..*p + ent.len()] == ent[..]) } { Some(p) => from = p + ent.len(),
+                        None if ALL_HANDED.lock().map(|a| a.windows(ent.len()).any(|w| w == ent.as_slice())).unwrap_or(false) => {}
+                        None => { ctx.eval(format!("after:{bn}:entropy-not-from-source")); ctx.violation(format!("{P}:random:after-{bn}:entropy-not-own-bytes"), format!("generation {} carries entropy {} which is not a run of the source's bytes", k + 1, explore::hex(&ent)), replay); return; } } }
+            }
+        }
+        ctx.eval(format!("after:{bn}:both-valid"));
+    });
     // runs of generations on ONE fresh thread: every generation has the requested length and carries its own bytes of the
     // stream, strictly after those of the generation before it (buffers that are refilled, carved or recycled between
     // generations show only from the second block of entropy on)
